@@ -147,7 +147,8 @@ func isPermanent(p string) bool {
 // Exec runs the given action.
 func (a *FuncAction) Exec(ctx context.Context, bs Bindings, props StepProps) (*Execution, error) {
 	if a == nil {
-		return NewExecution(bs), nil
+		// A copy: Step owns (and can extend) what an action returns.
+		return NewExecution(bs.Copy()), nil
 	}
 
 	var permanent map[string]interface{}
